@@ -7,7 +7,7 @@ CHECKS = {
  'C01': ('exploration', 'Closed2Manifold predicate (the clause list of the statement) evaluated on 64/32-bit exports of every handle of '
          'TLC-generated lattice programs with coincident/touching/nested operands and all Program.tla derivations',
          'lattice programs only so far; predicate implemented in the driver', 'TLC behaviour generation + replay with manifoldness oracle', '5 C01'),
- 'C02': ('exploration', 'TLC-enumerated lattice CSG programs (Program.tla/Lattice.tla/Expr.tla as exact oracle) replayed on the real API eagerly and lazily; '
+ 'C02': ('exploration', 'TLC-enumerated lattice CSG programs (Program.tla/Lattice.tla/Expr.tla as exact oracle) replayed on the real API eagerly and lazily (incl. all 2592 three-Boolean chains with derived operands over coincident bars/slabs); '
          'exhaustive over all ordered pairs of the 27 boxes of the 2x2x2 window x 3 ops and over two transformed leaves; seeded simulation beyond.',
          'independent solid-angle winding oracle at cell centres; lattice (coincident/coplanar) regime only', T_REPLAY, '5 C02'),
  'C03': ('model_checking', 'Expr.tla: TLC checks that a functional transcription of the lazy evaluator (collapse, transform push-down, '
